@@ -236,3 +236,34 @@ pub use version::{SemanticVersion, VersionParseError};
 pub use version_set::VersionSet;
 
 mod internal;
+
+/// Verification hook (compiled only with `--cfg pubgrub_verif`): the incompatibility store of the most
+/// recent resolution on this thread.
+#[cfg(pubgrub_verif)]
+pub mod verif_store {
+    use std::cell::RefCell;
+
+    /// One recorded incompatibility.
+    #[derive(Debug, Clone, PartialEq, Eq)]
+    pub struct Entry {
+        /// (package, term is positive, set) for each term, rendered with `Display`.
+        pub terms: Vec<(String, bool, String)>,
+        /// "notroot" | "nov" | "dep" | "der" | "custom"
+        pub kind: &'static str,
+        /// Cause ids of a derived incompatibility.
+        pub causes: Option<(usize, usize)>,
+    }
+
+    thread_local! {
+        static LAST: RefCell<Vec<Entry>> = const { RefCell::new(Vec::new()) };
+    }
+
+    pub(crate) fn set(v: Vec<Entry>) {
+        LAST.with(|l| *l.borrow_mut() = v);
+    }
+
+    /// Take the store recorded by the last resolution that finished on this thread.
+    pub fn take() -> Vec<Entry> {
+        LAST.with(|l| std::mem::take(&mut *l.borrow_mut()))
+    }
+}
